@@ -72,7 +72,7 @@ func (w *World) locateOut(cs *connState, pos int) (int, int) {
 func (w *World) drainOracles() {
 	healthy := !w.stopRequested && !w.stopEverAsked && !w.runDone
 	for _, cs := range w.conns {
-		if cs == nil || !cs.opened {
+		if cs == nil || !cs.opened || cs.udp {
 			continue
 		}
 		ps := w.peers[cs.idx]
@@ -112,6 +112,9 @@ func (w *World) victimOracle() {
 			continue
 		}
 		cs := w.conns[ps.idx]
+		if cs != nil && cs.udp {
+			continue
+		}
 		if cs != nil && w.faultTouched(cs) {
 			if !cs.closed {
 				w.violate("C18", "victim-not-closed", "with fault %s: conn %d was hit by the fault but is still open after the system went quiet", faultDesc(w.p.Faults), cs.idx)
@@ -160,7 +163,7 @@ func (w *World) finalOracles() {
 		break
 	}
 	for _, cs := range w.conns {
-		if cs == nil {
+		if cs == nil || cs.udp {
 			continue
 		}
 		w.checkOutPrefix(cs, false)
